@@ -116,7 +116,7 @@ def check(u, ss, cur):
     u.cover("end")
 
 
-@unit("C07.Standard.solve", ["C07", "C06"], [SOL + "standard_step_solver.StandardStepSolver.solve", SOL + "standard_step_solver.StandardStepSolver._compute_deriv", SOL + "step_solver.StepSolver.estimate_rcond", SOL + "standard_step_solver.StandardStepSolver.__init__"], config={"max_paths": 800})
+@unit("C07.Standard.solve", ["C07", "C06", "C09"], [SOL + "standard_step_solver.StandardStepSolver.solve", SOL + "standard_step_solver.StandardStepSolver._compute_deriv", SOL + "step_solver.StepSolver.estimate_rcond", SOL + "standard_step_solver.StandardStepSolver.__init__"], config={"max_paths": 800})
 def standard_solve(u):
     params, problem, ss, cur, log = setup(u, SOL + "standard_step_solver.StandardStepSolver")
     ss.fields["deriv"] = None
@@ -146,7 +146,7 @@ def scaled_setup(u, qual, helpers):
     return params, problem, ss, cur, log
 
 
-@unit("C07.Extended.solve", ["C07", "C06"], [SOL + "extended_step_solver.ExtendedStepSolver.solve_scaled", SOL + "scaled_step_solver.ScaledStepSolver.solve", SOL + "step_solver.StepSolver.estimate_rcond"], config={"max_paths": 800})
+@unit("C07.Extended.solve", ["C07", "C06", "C09"], [SOL + "extended_step_solver.ExtendedStepSolver.solve_scaled", SOL + "scaled_step_solver.ScaledStepSolver.solve", SOL + "step_solver.StepSolver.estimate_rcond"], config={"max_paths": 800})
 def extended_solve(u):
     params, problem, ss, cur, log = scaled_setup(u, SOL + "extended_step_solver.ExtendedStepSolver", [SOL + "extended_step_solver.ExtendedStepSolver._compute_deriv"])
     u.it.abstract[SOL + "extended_step_solver.ExtendedStepSolver._compute_deriv"] = _assemble(u, ss, SOL + "extended_step_solver.ExtendedStepSolver._compute_deriv")
@@ -165,7 +165,7 @@ def _assemble(u, ss, qual):
     return f
 
 
-@unit("C07.Symmetric.solve", ["C07", "C06"], [SOL + "symmetric_step_solver.SymmetricStepSolver.solve_scaled", SOL + "symmetric_step_solver.SymmetricStepSolver._solve_active_set", SOL + "symmetric_step_solver.SymmetricStepSolver._solve_deriv", SOL + "scaled_step_solver.ScaledStepSolver.solve", SOL + "step_solver.StepSolver.estimate_rcond"], config={"max_paths": 1500})
+@unit("C07.Symmetric.solve", ["C07", "C06", "C09"], [SOL + "symmetric_step_solver.SymmetricStepSolver.solve_scaled", SOL + "symmetric_step_solver.SymmetricStepSolver._solve_active_set", SOL + "symmetric_step_solver.SymmetricStepSolver._solve_deriv", SOL + "scaled_step_solver.ScaledStepSolver.solve", SOL + "step_solver.StepSolver.estimate_rcond"], config={"max_paths": 1500})
 def symmetric_solve(u):
     S = SOL + "symmetric_step_solver.SymmetricStepSolver."
     params, problem, ss, cur, log = scaled_setup(u, SOL + "symmetric_step_solver.SymmetricStepSolver", [S + "compute_hess_jac", S + "compute_rhs"])
@@ -220,7 +220,7 @@ def _fresh_int_vec(it, name, k):
     return Arr.new(v)
 
 
-@unit("C07.Asymmetric.solve", ["C07", "C06"], [SOL + "asymmetric_step_solver.AsymmetricStepSolver.solve_scaled", SOL + "scaled_step_solver.ScaledStepSolver.solve", SOL + "step_solver.StepSolver.estimate_rcond"], config={"max_paths": 1500})
+@unit("C07.Asymmetric.solve", ["C07", "C06", "C09"], [SOL + "asymmetric_step_solver.AsymmetricStepSolver.solve_scaled", SOL + "scaled_step_solver.ScaledStepSolver.solve", SOL + "step_solver.StepSolver.estimate_rcond"], config={"max_paths": 1500})
 def asymmetric_solve(u):
     S = SOL + "asymmetric_step_solver.AsymmetricStepSolver."
     params, problem, ss, cur, log = scaled_setup(u, SOL + "asymmetric_step_solver.AsymmetricStepSolver", [S + "compute_rhs", S + "initial_sol"])
